@@ -3,7 +3,8 @@
 (* C14: deprecation strategies.  Schema family: object T (implements Node) *)
 (* with probe fields a, b, c (c is object-typed) and the interface field   *)
 (* Node.a, each "none" | "bare" | a reason; a fixed operation selects them *)
-(* directly, aliased, through a fragment, and inside an interface variant. *)
+(* directly, aliased, through a fragment, inside an interface variant, and *)
+(* in selection sets that consist of deprecated fields only.               *)
 (* Reference: for a selected field that the type IN WHOSE SCOPE it is      *)
 (* selected marks deprecated: allow -> no attribute; warn (also when no    *)
 (* strategy is given) -> #[deprecated] carrying the reason verbatim when   *)
@@ -38,7 +39,11 @@ Members ==
      M(<<"t", "d">>, "none"),
      M(<<"frag:F", "fa">>, depA), M(<<"frag:F", "fb">>, depB), M(<<"frag:F", "d2">>, "none"),
      M(<<"node", "id">>, "none"), M(<<"node", "a">>, depNodeA),
-     M(<<"node", "on:T", "b">>, depB), M(<<"node", "on:T", "d">>, "none"), M(<<"node", "on:T", "c">>, depC) >>
+     M(<<"node", "on:T", "b">>, depB), M(<<"node", "on:T", "d">>, "none"), M(<<"node", "on:T", "c">>, depC),
+     \* selection sets in which EVERY member may be deprecated (under deny the struct is left empty, and
+     \* must still be a struct), and a deprecated object-typed field two levels down
+     M(<<"only", "oa">>, depA), M(<<"only", "ob">>, depB),
+     M(<<"deep", "c">>, depC), M(<<"deep", "c", "oc">>, depC), M(<<"deep", "c", "od">>, depA) >>
 
 \* never both marked and absent; non-deprecated members are always plain
 Sane == \A i \in 1..Len(Members) : Members[i].expect \in {"plain", "absent", "deprecated"} \/ strategy \in {"warn", "unset"}
